@@ -184,7 +184,8 @@ def judge(layout, names, deliver, ex, info):
 def task(args):
     """Explore every schedule of one program pair with <= bound preemptions
     (in a forked worker)."""
-    layout, names, deliver, bound, cap = args
+    layout, names, deliver, bound, cap = args[:5]
+    sub = args[5] if len(args) > 5 else None
     pre = [PROGRAMS[n][0](i) for i, n in enumerate(names)]
     progs = [PROGRAMS[n][1](i) for i, n in enumerate(names)]
     vios: list = []
@@ -203,7 +204,7 @@ def task(args):
                             for _, r, _ in res)))
         return ex, info
     try:
-        st = explore(run, bound, max_execs=cap)
+        st = explore(run, bound, max_execs=cap, prefixes=sub)
     except ScheduleError as exc:
         return {'error': repr(exc), 'names': names}
     finally:
